@@ -30,13 +30,14 @@ META = {
     ],
 }
 
-T = U = TI = I = None
+T = U = TI = I = simtty = None
 
 
 def setup():
-    global T, U, TI, I
-    from .. import simtty
+    global T, U, TI, I, simtty
+    from .. import simtty as _simtty
 
+    simtty = _simtty
     T = simtty.install()
     import term_image
     import term_image.image as _I
@@ -156,7 +157,6 @@ def img_file():
 
 
 def check_queries(c, rec):
-    from .. import simtty
     from ..simtty import UnboundedWait
 
     p = c["profile"]
@@ -256,7 +256,88 @@ def check_queries(c, rec):
         rec.nontriv([sorted(set(c["calls"])), unsupported, [d > 0 for d in p["delays"]], mixed, enabled])
 
 
+# ------------------------------------------------------------------------------------ real-time cross-check
+
+@st.composite
+def rt_cases(draw):
+    c = draw(cases())
+    c["profile"]["delays"] = [draw(st.sampled_from([0.0, 0.002, 0.01, 0.03])) for _ in range(3)]
+    c["profile"]["da1"] = True  # a silent terminal would cost a full real-time timeout per query
+    c["enabled"] = True
+    c["calls"] = c["calls"][:2]
+    return c
+
+
+def check_realtime(c, rec):
+    """The same oracle with the real select()/monotonic() and a responder thread: the simulation and
+    the real kernel path must agree.  Time-outs are inconclusive, never violations."""
+    import select as _sel
+    import time as _time
+
+    from ..core import HarnessError
+    from ..simtty import RealTimeDriver
+
+    saved = (U.select, U.monotonic)
+    U.select, U.monotonic = _sel.select, _time.monotonic
+    try:
+        # reuse the virtual-time check body, but under real time: it only relies on T for bookkeeping
+        p = c["profile"]
+        cols, rows, xp, yp = c["win"]
+        reset_lib()
+        U._query_timeout = 2.0
+        simtty.set_winsize(cols, rows, xp, yp)
+        saved_env = {k: os.environ.get(k) for k in ("TERM_PROGRAM", "TERM_PROGRAM_VERSION", "SHELL")}
+        for k in saved_env:
+            os.environ.pop(k, None)
+        os.environ.update(c["environ"])
+        T.reset(p)
+        if c["swap"]:
+            TI.enable_win_size_swap()
+        environ = c["environ"]
+        try:
+            with RealTimeDriver(T):
+                for call in c["calls"]:
+                    t0 = _time.monotonic()
+                    if call in ("colors", "colors_hex"):
+                        got = U.get_fg_bg_colors()
+                        exp = R.colors(p, True)
+                    elif call == "name_version":
+                        got, exp = U.get_terminal_name_version(), R.name_version(p, environ, True)
+                    elif call == "cell_size":
+                        got = U.get_cell_size()
+                        got, exp = got and tuple(got), R.cell_size(p, c["win"], c["swap"], environ, True)
+                    elif call == "kitty":
+                        got, exp = I.KittyImage.is_supported(), R.kitty_supported(p, environ, True)
+                    elif call == "iterm2":
+                        got, exp = I.ITerm2Image.is_supported(), R.iterm2_supported(p, environ, True)
+                    else:
+                        got, exp = I.auto_image_class().__name__, R.auto_class(p, environ, True)
+                    took = _time.monotonic() - t0
+                    if got != exp:
+                        if took > 1.5:
+                            raise HarnessError(f"real-time query took {took:.2f}s (inconclusive)")
+                        raise Violation(f"[real time] {call} returned {got!r}, the terminal said {exp!r} (profile {p})",
+                                        {"kind": "wrong_result_realtime", "call": call})
+                _time.sleep(0.05)
+        finally:
+            for k, v in saved_env.items():
+                os.environ.pop(k, None)
+                if v is not None:
+                    os.environ[k] = v
+        T._handle_requests()
+        T._deliver_due(float("inf"))
+        left = T.unread_bytes()
+        if left:
+            raise Violation(f"[real time] reply bytes left unread on the terminal: {left!r} (profile {p}, calls {c['calls']})",
+                            {"kind": "unread_realtime"})
+    finally:
+        U.select, U.monotonic = saved
+    rec.label("realtime")
+    rec.nontriv([c["calls"], [d > 0 for d in c["profile"]["delays"]]])
+
+
 CLAUSES = [
     Clause("queries", check_queries, cases, budget={"quick": 2500, "thorough": 100000},
            floors={"delayed": 0.3, "mixed_widths": 0.1, "disabled": 0.05}),
+    Clause("realtime", check_realtime, rt_cases, budget={"quick": 48, "thorough": 600}, min_per_shard=6),
 ]
